@@ -41,6 +41,20 @@ def abort_sig(pid, c):
     cfg = getattr(c, 'meta', {}).get('cfg') if hasattr(c, 'meta') else None
     return '%s:abort:%s:%s:%s:%s' % (pid.lower(), cfg.kind if cfg else '-', op, kind, frame)
 
+def meta_json(c):
+    m = dict(getattr(c, 'meta', None) or {})
+    cfg = m.pop('cfg', None)
+    if cfg is not None:
+        m['cfg'] = {'kind': cfg.kind, 'k': cfg.k, 'r': cfg.r, 'length': cfg.len, 'N1': cfg.N1, 'seed': cfg.seed,
+                    'payload': cfg.payload, 'pseed': cfg.pseed}
+    return {k: v for k, v in m.items() if isinstance(v, (int, str, list, dict, bool, type(None)))}
+
+def meta_from_json(m):
+    m = dict(m or {})
+    if isinstance(m.get('cfg'), dict):
+        m['cfg'] = gens.Cfg(**m['cfg'])
+    return m
+
 def shrink_script(c, upto):
     """script prefix up to and including line index `upto`, closed by the releases of the sessions it opened"""
     lines = c.lines[:upto + 1]
@@ -106,11 +120,11 @@ class StreamProperty:
                 res.violation(sig, 'the real library aborted under the sanitizers (%s) at %r in case %s' %
                               (c.abort.get('summary'), c.abort.get('at_line'), c.name),
                               replay={'script': shrink_script(c, idx) if idx is not None else c.lines, 'abort': c.abort.get('summary'),
-                                      'stderr_tail': (c.abort.get('stderr') or '')[-1200:]})
+                                      'stderr_tail': (c.abort.get('stderr') or '')[-1200:], 'meta': meta_json(c)})
                 found = True; nviol += 1
             for sig, what, idx in self.oracle(c):
                 res.violation(sig, what + ' (case %s)' % c.name,
-                              replay={'script': shrink_script(c, idx) if idx is not None else c.lines,
+                              replay={'script': c.lines, 'failing_line_index': idx, 'meta': meta_json(c),
                                       'impl_output': c.impl[idx] if idx is not None and idx < len(c.impl) else None})
                 found = True; nviol += 1
                 break
@@ -125,7 +139,8 @@ class StreamProperty:
             res.violation('%s:corr:%s' % (self.pid.lower(), c.lines[i].split()[0]),
                           'correspondence between the model and the implementation broke at %r (impl %r, model %r) in %d case(s); '
                           'the direct oracle found no failing input' % (c.lines[i], a[:200], b[:200], len(broken_corr)),
-                          replay={'broken': 'correspondence stream of %s' % self.pid, 'script': shrink_script(c, i), 'impl': a[:1000], 'model': b[:1000]},
+                          replay={'broken': 'correspondence stream of %s' % self.pid, 'script': shrink_script(c, i), 'impl': a[:1000], 'model': b[:1000],
+                                  'meta': meta_json(c)},
                           no_input=True)
         res.cov['correspondence_mismatches'] = len(broken_corr)
         if not ok and not res.violations:
@@ -142,7 +157,7 @@ class StreamProperty:
             print('replay names a broken obligation, not an input:', json.dumps(r.get('replay'))[:600]); return 1
         if not script[0].startswith('case'):
             script = ['case replay'] + script
-        c = corr.CaseResult('replay', script); c.meta = {}
+        c = corr.CaseResult('replay', script); c.meta = meta_from_json((r.get('replay') or {}).get('meta'))
         corr.run([c])
         for i, l in enumerate(c.lines):
             a = c.impl[i] if i < len(c.impl) else '<no output>'
